@@ -396,6 +396,8 @@ pub struct Rig {
     snd: Option<Snd>, st: Rc<RefCell<TState>>, ctl: QAddr, evq: QAddr, tx: QAddr,
     indirect: bool, event_idx: bool, tx_last_used: u16, enc: Enc, next_id: u64,
     cfg: (u32, u32, u32), setup_done: bool, broken: bool,
+    /// the platform / transport log of VirtIOSound::new; the last OK answer of the device to PCM_INFO
+    new_evs: Vec<Ev>, pcm_rsp: Option<Vec<u8>>,
 }
 
 fn gen_infos(ctx: &mut Ctx, nj: usize, np: usize, nc: usize) -> (Vec<JackInfo>, Vec<PcmInfo>, Vec<ChmapInfo>) {
@@ -428,6 +430,12 @@ fn make(ctx: &mut Ctx, feats: u64, nj: usize, np: usize, nc: usize) -> Option<Ri
     let snd = match r { Ok(Ok(s)) => s, _ => { ctx.tr.note("new_failed"); ctx.tr.line(2058, &[nj as u128, np as u128, nc as u128, u128::MAX, 0, 0], &[1]); return None; } };
     ctx.tr.line(2034, &[feats as u128, nj as u128, np as u128, nc as u128], &[indirect as u128, event_idx as u128, snd.jacks() as u128, snd.streams() as u128, snd.chmaps() as u128]);
     ctx.tr.line(2058, &[nj as u128, np as u128, nc as u128, snd.jacks() as u128, snd.streams() as u128, snd.chmaps() as u128], &[1]);
+    // the three configuration reads of new, predicted (2039), and the counters against the raw configuration bytes (2061)
+    let mut co = vec![0u128, 0, snd.jacks() as u128, snd.streams() as u128, snd.chmaps() as u128];
+    for e in &evs { if let Ev::ReadConfig { off, len } = e { co.extend([*off as u128, *len as u128]); } }
+    ctx.tr.line(2039, &[0, nj as u128, 0, np as u128, 0, nc as u128], &co);
+    let mut cm = vec![0u128, snd.jacks() as u128, snd.streams() as u128, snd.chmaps() as u128]; cm.extend(st.borrow().config.iter().map(|b| *b as u128));
+    ctx.tr.line(2061, &cm, &[1]);
     let q = |i: usize| { let qi = st.borrow().queues[i]; QAddr { desc: qi.desc, drv: qi.drv, dev: qi.dev, size: N } };
     let (ctl, evq, tx) = (q(0), q(1), q(2));
     let seed = ctx.rng.next();
@@ -439,7 +447,7 @@ fn make(ctx: &mut Ctx, feats: u64, nj: usize, np: usize, nc: usize) -> Option<Ri
     st.borrow_mut().on_notify = Some(Box::new(|q, _s| sim_notify(q)));
     virtio_drivers::verif::set_observer(Some(observer));
     Some(Rig { snd: Some(snd), st, ctl, evq, tx, indirect, event_idx, tx_last_used: 0, enc: Enc::default(), next_id: 5000,
-        cfg: (nj as u32, np as u32, nc as u32), setup_done: false, broken: false })
+        cfg: (nj as u32, np as u32, nc as u32), setup_done: false, broken: false, new_evs: evs, pcm_rsp: None })
 }
 
 fn finish(mut rig: Rig, ctx: &mut Ctx, clean: bool) {
@@ -556,6 +564,17 @@ fn ctl_op(rig: &mut Rig, ctx: &mut Ctx, op: u8, a: [u64; 7], policy: Policy) -> 
         with_sim(|s| { mi.push(s.dev.pcms.len() as u128); for p in &s.dev.pcms { mi.extend([p.direction as u128, p.rates as u128, p.formats as u128, p.chmin as u128, p.chmax as u128, p.features as u128]); } });
         // only meaningful once the device has answered the PCM_INFO query successfully (before or during this call)
         if class == 0 || rig.setup_done { ctx.tr.line(2055, &mi, &[1]); }
+    }
+    // the device's answer to PCM_INFO as it wrote it (status ++ items), kept for the queries that follow
+    if let Some(m) = log.iter().find(|m| m.code == 0x100 && m.status == S_OK) { if class != 2 { rig.pcm_rsp = Some(m.rsp.clone()); } }
+    if op == 4 {
+        if let Some(rsp) = &rig.pcm_rsp {
+            // monitor 2062: the value returned against the RAW answer, read with the field table of 5.14.6.6.2
+            let mut mi = vec![a[0] as u128, a[1] as u128, class, code, vals.len() as u128]; mi.extend(vals.iter().cloned());
+            mi.push(rig.cfg.1 as u128); mi.extend(rsp.iter().map(|b| *b as u128));
+            ctx.tr.line(2062, &mi, &[1]);
+            ctx.tr.note(&format!("query{}_{}", a[0], if class == 0 { "ok" } else { "refused" }));
+        }
     }
     if log.iter().any(|m| m.code == 0x100 && m.status == S_OK) && class != 2 { rig.setup_done = true; }
     if class == 2 { rig.broken = true; }
@@ -905,12 +924,40 @@ fn nb_permutation(ctx: &mut Ctx, feats: u64) {
     finish(rig, ctx, clean);
 }
 
-/// latest_notification: each device event is returned once, in order, with its type and data
+/// VirtIO 1.2, 2.7.10 (written from the specification): must the device be told about the entries published while the
+/// available index moved from `old` to `new`?
+fn spec_must_notify(event_idx: bool, ae: u16, uf: u16, new: u16, old: u16) -> bool {
+    if event_idx { new.wrapping_sub(ae).wrapping_sub(1) < new.wrapping_sub(old) } else { uf & 1 == 0 }
+}
+
+/// latest_notification: each device event is returned once, in order, with its type and data.
+/// Every call is one line 1981 for Model/Sound.snd_latest_notification (result and ordered queue effects predicted), one
+/// monitor line 1982 (the clauses of SoundProofs.snd_notif_stocked on device memory) and the older monitor line 2056; the
+/// event-queue part of VirtIOSound::new is line 1980.
 fn notifications(ctx: &mut Ctx, feats: u64, nevents: usize) {
     let mut rig = match make(ctx, feats, 1, 1, 0) { Some(r) => r, None => return };
-    let mut dev = ODev { a: rig.evq, seen: 0, used: 0, fetched: vec![] };
+    let a = rig.evq;
+    // identities of the 32 event buffers: the 8-byte shares of new, in order; from now on the store hooks report on the event queue
+    let shares: Vec<(usize, u64)> = rig.new_evs.iter().filter_map(|e| if let Ev::Share { vaddr, len: 8, paddr, .. } = e { Some((*vaddr, *paddr)) } else { None }).collect();
+    qrig::BUFIDS.with(|m| { let mut m = m.borrow_mut(); m.clear(); for (i, s) in shares.iter().enumerate() { m.insert(s.0, i as u64); } });
+    CURQ.with(|c| *c.borrow_mut() = a);
+    virtio_drivers::verif::set_observer(Some(qrig::observer));
+    rig.st.borrow_mut().on_notify = None;
+    {
+        let (ae0, uf0) = (hal::dev_read_u16(a.dev + 4 + 8 * N as u64).unwrap_or(0), hal::dev_read_u16(a.dev).unwrap_or(0));
+        let mut ins = vec![feats as u128, 0, ae0 as u128, uf0 as u128]; ins.extend(shares.iter().map(|s| s.1 as u128));
+        let mut outs: Vec<u128> = vec![0, 0];
+        for (i, s) in shares.iter().enumerate() { outs.extend([1, i as u128, 8, 1, s.1 as u128]); }
+        let ok_pos = rig.new_evs.iter().position(|e| matches!(e, Ev::SetStatus(s) if s & 4 != 0)).unwrap_or(rig.new_evs.len());
+        for e in &rig.new_evs[ok_pos..] { if let Ev::Notify(q) = e { if *q == 1 { outs.push(11); } else { outs.extend([11, *q as u128]); } } }
+        // a notification before DRIVER_OK would be C08's finding; here it only breaks the correspondence
+        for e in &rig.new_evs[..ok_pos] { if let Ev::Notify(q) = e { outs.extend([13, *q as u128]); } }
+        ctx.tr.line(1980, &ins, &outs);
+    }
+    let mut dev = ODev { a, seen: 0, used: 0, fetched: vec![] };
     let mut expect: Vec<(u32, u32, u32)> = vec![];
     let mut done = 0;
+    let mut last_used: u16 = 0;
     // bounded whatever the code under test does (a driver that stops delivering must not make the scenario run for ever)
     let mut rounds = 0usize;
     while done < nevents && rounds < 4 * nevents + 64 {
@@ -923,27 +970,108 @@ fn notifications(ctx: &mut Ctx, feats: u64, nevents: usize) {
             let code: u32 = match ctx.rng.below(8) { 0 => 0x1000, 1 => 0x1001, 2 => 0x1100, 3 => 0x1101, 4 => *ctx.rng.pick(&[0u32, 0x1002, 0x10ff, 0x1102, 0x8000, 0x0100_1000, u32::MAX]), _ => *ctx.rng.pick(&[0x1000u32, 0x1001, 0x1100, 0x1101]) };
             let data = ctx.rng.boundary(32) as u32;
             let mut b = code.to_le_bytes().to_vec(); b.extend(data.to_le_bytes());
-            let len = if ctx.rng.chance(1, 12) { *ctx.rng.pick(&[0u32, 4, 7]) } else { 8 };
+            // mostly whole events; sometimes a shorter length, sometimes one beyond the buffer (9, 2^16, 2^32-1)
+            let len = if ctx.rng.chance(1, 10) { *ctx.rng.pick(&[0u32, 4, 7]) } else if ctx.rng.chance(1, 14) { *ctx.rng.pick(&[9u32, 0x1_0000, u32::MAX]) } else { 8 };
             dev.complete(k, &b, len);
             expect.push((code, data, len));
         }
+        if ctx.rng.chance(1, 5) { // suppression data changes
+            hal::dev_write_u16(a.dev + 4 + 8 * N as u64, if ctx.rng.chance(1, 2) { hal::dev_read_u16(a.drv + 2).unwrap().wrapping_sub(ctx.rng.below(3) as u16).wrapping_add(1) } else { ctx.rng.boundary(16) as u16 }).unwrap();
+            hal::dev_write_u16(a.dev, ctx.rng.below(2) as u16).unwrap();
+        }
         let polls = 1 + ctx.rng.below(36) as usize;
         for _ in 0..polls {
+            // what the device shows at this moment
+            let ui = hal::dev_read_u16(a.dev + 2).unwrap();
+            let slot = (last_used as usize) & (N - 1);
+            let uid = hal::dev_read_u32(a.dev + 4 + 8 * slot as u64).unwrap();
+            let ulen = hal::dev_read_u32(a.dev + 8 + 8 * slot as u64).unwrap();
+            let ae = hal::dev_read_u16(a.dev + 4 + 8 * N as u64).unwrap();
+            let uf = hal::dev_read_u16(a.dev).unwrap();
+            let avail_before = hal::dev_read_u16(a.drv + 2).unwrap();
+            let tok = (uid & 0xffff) as usize;
+            let is_pending = ui != last_used;
+            // what the completed buffer will hold after the copy-back: the contents of the device-side buffer now
+            let wr: Vec<u8> = if is_pending && tok < N { qrig::read_desc(&a, tok).and_then(|d| hal::dev_read(d.0, 8).ok()).unwrap_or_default() } else { vec![] };
+            hal::take_log();
             let snd = rig.snd.as_mut().unwrap();
             let r = catch_unwind(AssertUnwindSafe(|| snd.latest_notification()));
+            let evs = hal::take_log();
             dev.fetch();
+            let addr = evs.iter().find_map(|e| if let Ev::Share { paddr, .. } = e { Some(*paddr) } else { None }).unwrap_or(0);
             let pending = !expect.is_empty();
             let (code, data, len) = expect.first().copied().unwrap_or((0, 0, 0));
             let (class, has, ty, d) = match &r { Ok(Ok(Some(n))) => (0u128, 1u128, n.notification_type() as u32 as u128, n.data() as u128), Ok(Ok(None)) => (0, 0, 0, 0), Ok(Err(_)) => (1, 0, 0, 0), Err(_) => (2, 0, 0, 0) };
+            let ecode = match &r { Ok(Err(e)) => err_code(e), _ => 0 };
+            // ---- the model's line
+            let mut ins = vec![ui as u128, uid as u128, ulen as u128, addr as u128, ae as u128, uf as u128]; ins.extend(wr.iter().map(|b| *b as u128));
+            let mut outs: Vec<u128> = match &r { Ok(Ok(Some(_))) => vec![0, 1, ty, d], Ok(Ok(None)) => vec![0, 0, 0, 0], Ok(Err(e)) => vec![1, err_code(e), 0, 0], Err(_) => vec![2, 0, 0, 0] };
+            outs.extend(qrig::enc_qevents(&evs, tok as u128));
+            ctx.tr.line(1981, &ins, &outs);
+            // ---- monitor 1982: what the device finds afterwards
+            let avail_after = hal::dev_read_u16(a.drv + 2).unwrap();
+            let adelta = avail_after.wrapping_sub(avail_before);
+            let head = hal::dev_read_u16(a.drv + 4 + 2 * ((avail_after.wrapping_sub(1) as u64) & (N as u64 - 1))).unwrap();
+            let (dlen, dw, disbuf) = match qrig::read_desc(&a, head as usize & (N - 1)) {
+                Some((daddr, l, flags, _)) => (l as u128, (flags & 7 == 2) as u128, (tok < N && shares.get(tok).map(|s| hal::share_at(daddr) == Some((s.0, 8, 1))).unwrap_or(false)) as u128),
+                None => (0, 0, 0) };
+            let n1 = evs.iter().filter(|e| matches!(e, Ev::Notify(1))).count() as u128;
+            let nother = evs.iter().filter(|e| matches!(e, Ev::Notify(q) if *q != 1)).count() as u128;
+            let nshares = evs.iter().filter(|e| matches!(e, Ev::Share { .. })).count() as u128;
+            let nunshares = evs.iter().filter(|e| matches!(e, Ev::Unshare { .. })).count() as u128;
+            let must = spec_must_notify(rig.event_idx, ae, uf, avail_after, avail_before) as u128;
+            let (dcode, ddata) = if wr.len() == 8 { (le32(&wr) as u128, le32(&wr[4..]) as u128) } else { (0, 0) };
+            ctx.tr.line(1982, &[is_pending as u128, (tok < N) as u128, class, ecode, has, adelta as u128, head as u128, tok as u128, dlen, dw, disbuf,
+                                n1, nother, must, nshares, nunshares, ulen as u128, ty, d, dcode, ddata], &[1]);
+            if is_pending && tok < N && adelta == 1 { ctx.tr.note(if n1 > 0 { "notification_repost_notified" } else { "notification_repost_suppressed" }); }
+            // ---- the older monitor 2056
             let consumed = pending && class != 2;
-            if consumed { expect.remove(0); done += 1; }
+            if consumed { expect.remove(0); done += 1; last_used = last_used.wrapping_add(1); }
             let posted = dev.posted() as u128 + expect.len() as u128;
-            ctx.tr.line(2056, &[class, has, ty, d, pending as u128, code as u128, data as u128, len as u128, posted], &[1]);
-            ctx.tr.note(if has == 1 { "notification_delivered" } else if class == 1 { "notification_unknown_type" } else { "notification_none" });
+            // (2056 is stated for recorded lengths up to the buffer size; a longer one is judged by 1982: IoError, buffer posted again)
+            if !(pending && len > 8) { ctx.tr.line(2056, &[class, has, ty, d, pending as u128, code as u128, data as u128, len as u128, posted], &[1]); }
+            ctx.tr.note(if has == 1 { "notification_delivered" } else if class == 1 && len > 8 { "notification_oversize_length" } else if class == 1 { "notification_unknown_type" }
+                        else if pending && len < 8 { "notification_short_length" } else { "notification_none" });
             if class == 2 { done = nevents; break; }
         }
     }
+    virtio_drivers::verif::set_observer(None);
+    CURQ.with(|c| *c.borrow_mut() = QAddr::default());
     finish(rig, ctx, false);
+}
+
+/// VirtIOSound::new on configuration spaces of every length: the three counters are read at offsets 0, 4, 8 (4 bytes
+/// each), a refused read ends the constructor with the transport's error before the later fields are touched (line 2039)
+fn config_reads(ctx: &mut Ctx) {
+    for cfg_len in [12usize, 16, 0, 3, 4, 7, 8, 11, 12] {
+        hal::reset();
+        qrig::BUFIDS.with(|b| b.borrow_mut().clear());
+        CURQ.with(|c| *c.borrow_mut() = QAddr::default());
+        SIM.with(|c| *c.borrow_mut() = None);
+        virtio_drivers::verif::set_observer(None);
+        let vals = [ctx.rng.boundary(32) as u32, ctx.rng.below(40) as u32, ctx.rng.boundary(32) as u32];
+        let mut cfg = vec![]; for v in vals { cfg.extend(v.to_le_bytes()); }
+        cfg.resize(cfg_len.max(12), 0); cfg.truncate(cfg_len);
+        let mut ts = TState::new(DeviceType::Sound, F_V1 | *ctx.rng.pick(&[0u64, F_IND, F_EV]), 4, N as u32);
+        ts.config = cfg.clone();
+        let (t, _st) = ModelTransport::new(ts);
+        let r = catch_unwind(AssertUnwindSafe(move || Snd::new(t)));
+        let evs = hal::take_log();
+        // what the transport answers to the three reads: the field if the memory holds it, ConfigSpaceTooSmall (9) otherwise
+        let mut ins = vec![];
+        for k in 0..3usize { if 4 * k + 4 <= cfg_len { ins.extend([0u128, vals[k] as u128]); } else { ins.extend([1u128, 9]); } }
+        let mut outs: Vec<u128> = match &r { Ok(Ok(s)) => vec![0, 0, s.jacks() as u128, s.streams() as u128, s.chmaps() as u128], Ok(Err(e)) => vec![1, err_code(e), 0, 0, 0], Err(_) => vec![2, 0, 0, 0, 0] };
+        for e in &evs { if let Ev::ReadConfig { off, len } = e { outs.extend([*off as u128, *len as u128]); } }
+        ctx.tr.line(2039, &ins, &outs);
+        if let Ok(Ok(s)) = &r {
+            let mut cm = vec![0u128, s.jacks() as u128, s.streams() as u128, s.chmaps() as u128]; cm.extend(cfg[..12].iter().map(|b| *b as u128));
+            ctx.tr.line(2061, &cm, &[1]);
+        }
+        ctx.tr.note(match &r { Ok(Ok(_)) => "snd_new_config_ok", Ok(Err(_)) => "snd_new_config_refused", Err(_) => "snd_new_config_panic" });
+        let _ = catch_unwind(AssertUnwindSafe(move || drop(r)));
+        hal::take_log();
+        ledger_line(ctx);
+    }
 }
 
 /// the two findings of this check, as minimal histories; they run first on every check
@@ -989,6 +1117,7 @@ pub fn run_notifications(ctx: &mut Ctx) {
 pub fn run(ctx: &mut Ctx) {
     ctx.tr.scenario("c20snd-finding-xfer-ok-status"); finding_xfer_ok_status(ctx);
     ctx.tr.scenario("c20snd-finding-jack-remap-panic"); finding_jack_remap_panic(ctx);
+    ctx.tr.scenario("c20snd-config-reads"); config_reads(ctx);
     let nctl = ctx.budget(72, 8);
     let ops = ctx.budget(40, 3) as usize;
     for i in 0..nctl { ctx.tr.scenario(&format!("c20snd-ctl-{}", i)); ctl_history(ctx, FEATS[(i % 6) as usize], ops, i); }
